@@ -81,7 +81,7 @@ func (h *ngSSE) ServeHTTP(w http.ResponseWriter, req *http.Request) {
 
 type ngCell struct {
 	req    string // "default" or s<hex>
-	kind   string // mem pipe sse stateful stateless
+	kind   string // mem pipe sse stateful stateless statefulnoid (stateful, the server assigns no session IDs)
 	subset string // "none" or m<5 bits over supportedProtocolVersions>
 	json   bool
 	store  bool
@@ -133,7 +133,12 @@ func ngRun(c ngCell) (obs string, tags []string) {
 			tags = append(tags, "panic")
 		}
 	}()
-	srv := NewServer(&Implementation{Name: "verif", Version: "1"}, nil)
+	var sopts *ServerOptions
+	if c.kind == "statefulnoid" {
+		// a stateful endpoint whose server hands out no session IDs (the handler's "ephemeral session" branch)
+		sopts = &ServerOptions{GetSessionID: func() string { return "" }}
+	}
+	srv := NewServer(&Implementation{Name: "verif", Version: "1"}, sopts)
 	srv.AddTool(&Tool{Name: "echo", InputSchema: map[string]any{"type": "object"}},
 		func(context.Context, *CallToolRequest) (*CallToolResult, error) {
 			return &CallToolResult{Content: []Content{&TextContent{Text: "pong"}}}, nil
@@ -184,7 +189,7 @@ func ngRun(c ngCell) (obs string, tags []string) {
 		hc := &http.Client{Transport: &http.Transport{}}
 		cleanup = append(cleanup, hc.CloseIdleConnections)
 		ct = &SSEClientTransport{Endpoint: ts.URL, HTTPClient: hc}
-	case "stateful", "stateless":
+	case "stateful", "stateless", "statefulnoid":
 		opts := &StreamableHTTPOptions{Stateless: c.kind == "stateless", JSONResponse: c.json}
 		if c.store {
 			opts.EventStore = NewMemoryEventStore(nil)
@@ -273,7 +278,7 @@ func ngCells() []ngCell {
 		for _, s := range ngSubsets() {
 			cells = append(cells, ngCell{req: req, kind: "sse", subset: s})
 		}
-		for _, kind := range []string{"stateful", "stateless"} {
+		for _, kind := range []string{"stateful", "stateless", "statefulnoid"} {
 			for _, j := range []bool{false, true} {
 				for _, st := range []bool{false, true} {
 					cells = append(cells, ngCell{req: req, kind: kind, subset: "none", json: j, store: st})
